@@ -53,3 +53,21 @@ claim("C06",
       "Liveness over all schedules is not statically decidable here; what is decided is the wiring without which the property fails on some run: every unbounded wait of the send goroutine can be woken into queue.resend by the resend timer and by a NACK signal, the waits inside the resend path are timer- and quit-bounded, queue.resend retransmits content[i] only under i != top, the ticker is re-armed after a resend, a resend-requesting NACK / a valid ACK reaches its (buffered, non-blocking) signal on every path, the window-full wait is level-triggered, NACK suppression is time-bounded, and - the clause that the pinned tree violated - the resend timer is restarted outside the send goroutine only under a fact that our own queue made progress. Each is a necessary condition of 'delivered or fails visibly, never a silent stall'.",
       "Not decided: delivery-time bounds, absence of livelock between syncer, NACK back-off and resend, behaviour for specific fault sequences (needs model checking or simulation, a different family).",
       "DESIGN.md §4 C06")
+
+claim("C01",
+      "dominance/template rules over SSA for the receiver acceptance discipline and the window-base moves; exhaustive order-table decision of the cyclic membership predicate; who-may-send/receive on the delivery channels",
+      "Exactly-once in-order delivery over all fault sequences and schedules is not statically decidable; decided instead are the code-shape conditions each of which is necessary for it: the receiver delivers and advances only under Seq == recvSeq, exactly once per packet, modulo s, ACK/NACK carry the right numbers; the delivery channels have a single producer and a single consumer; the retransmission queue labels, stores and replays exactly content[i] for i in [base, top); every move of the window base matches one of four (value, guard) templates; containsSequence is decided for ALL values by evaluating its comparison-only decision tree under the 13 weak orderings of its three arguments (exhaustive because the result depends on the ordering only); window fields and peer sequence numbers stay in [0, s).",
+      "Not decided: the interplay of loss, duplication and delay with the resend timer, the syncer and the NACK back-off across schedules (the behavioural remainder needs model checking or simulation). Send retains the caller's slice in the queue (noted, outside the stated quantifier).",
+      "DESIGN.md §4 C01")
+
+claim("C09",
+      "path rule on the send loop (must pass size() < n between admissions), channel-capacity and who-may-use rules, template rules for s = n + 1, interval analysis of the window fields",
+      "The window bound is decided structurally for every N and every ACK/NACK pattern: between two admissions to the queue the send loop must pass the size() < n edge; the hand-off channel is unbuffered with exactly one sender (Send) and one receiver (the admitting select), so Send blocks exactly while the loop is not admitting; every definition of a sequence-space field is n + 1 with n <= 254 (strictly larger than the window, never wrapping to 0); base and top stay below s at every store and peer sequence numbers are validated before they enter the window arithmetic; size() is a recognised closed form of (top - base) mod s; base moves follow the four templates and the membership predicate is exact.",
+      "Not decided: the instantaneous count of outstanding packets as an invariant over all schedules (follows from WIN-4, WIN-5, INV and SIZE only through an inductive argument the checker does not carry out).",
+      "DESIGN.md §4 C09")
+
+claim("C10",
+      "value-provenance rules over SSA (phi expansion) for the negotiated window, dominance rule for the client's check, region/path rule for ignoring non-SYN packets, interval analysis for representability",
+      "Decided for all handshake packet contents: the server echoes exactly the N field of the SYN it received and later adopts that same value, proved <= 254; the restart shortcut is reachable only after a SYN was echoed; the client sends SYNACK only under respSYN.N == cfg.n and fails otherwise; while waiting for SYN, no successfully parsed non-SYN packet reaches handshake completion without another receive (server: except SYNACK/DATA after a restart); NewClientConn rejects 255. These are the safety clauses of the property ('never a window the client did not propose or that cannot be represented').",
+      "Not decided: convergence under loss/duplication/delay and stale packets, and 'once the transport behaves a handshake succeeds' (liveness over schedules).",
+      "DESIGN.md §4 C10")
